@@ -1,8 +1,191 @@
-import ChemModel.Model.Formula
+/-
+C01 — formula parsing yields exactly the written elemental composition and charge.
+
+Objects (see Model/FormulaSpec.lean, Model/Formula.lean):
+* `Formula` — the AST of a written formula (prefixes, hydrate parts with leading counts, nested ( ) [ ] { } groups,
+  `@` cages, integer / decimal counts, states, prime/star marks, charge, phase suffix); `Formula.render` writes it down;
+  `Formula.occurrences` lists every element occurrence with the product of its enclosing multipliers;
+  `Formula.denote f k` is the total for atomic number `k` and the signed charge for `k = 0`; `Formula.WF` is decidable.
+* `formulaToComposition : String → Except ErrKind Comp` — the executable model of chempy's
+  `formula_to_composition` / `Substance.from_formula(...).composition` (dict = association list in insertion order).
+* `Agrees f c` — `c` has no duplicate keys, its keys are exactly the occurring elements (+ 0 iff a charge is written),
+  every entry equals `denote f k`, and nothing else is present.
+Helper lemmas live in Proofs/Formula*.lean. All theorems are for unbounded nesting depth and length.
+-/
+import ChemModel.Proofs.FormulaReject3
+
+deriving instance DecidableEq for Except
 
 namespace ChemModel.C01
 open ChemModel.Formula ChemModel.Gen
 
+/-! ### guards: the regexes and parse actions whose semantics are hand-modelled are the ones in the source -/
+
 theorem count_regex_is : countRegex = "(\\d+\\.\\d+|\\d*)" := by decide
+theorem count_action_is : countAction = "lambda t: 1 if t[0] == \"\" else float(t[0])" := by decide
+theorem state_regex_is : stateRegex = "\\((s|l|g|aq|cr)\\)" := by decide
+theorem primes_regex_is : primesRegex = "[*']+" := by decide
+theorem caged_regex_is : cagedRegex = "\\@" := by decide
+theorem bracket_regexes_are :
+    lpRegex = "\\(" ∧ rpRegex = "\\)" ∧ lsbRegex = "\\[" ∧ rsbRegex = "\\]" ∧ lcbRegex = "\\{" ∧ rcbRegex = "\\}" := by decide
+theorem leading_int_regex_is : leadingIntRegex = "^\\d+" := by decide
+theorem term_expr_is : termExpr =
+    "Group((element|Group(LP+formula+RP)(\"subgroup\")|Group(LSB+formula+RSB)(\"subgroup\")|Group(LCB+formula+RCB)(\"subgroup\")|Group(caged+formula)(\"subgroup\"))+Optional(count,default=1)(\"mult\")+Optional(state)(\"state\")+Optional(primes)(\"primes\"))" := by
+  decide +kernel
+
+/-! ### the element table -/
+
+/-- The table holds 118 symbols. -/
+theorem symbols_count : symbols.length = 118 := symbols_length
+
+/-- Every one of the 118 symbols is tokenised greedily and completely by the element regex (ordered alternation
+    semantics) and mapped to its own atomic number, whatever follows it — as long as that is not a lowercase letter.
+    This is the "Co vs CO", "every adjacency of two symbols" clause: `symChars z ++ symChars z' ++ …` always reads `z` first. -/
+theorem elem_table_complete (z : Nat) (h1 : 1 ≤ z) (h2 : z ≤ 118) (r : List Char)
+    (hr : ∀ c, r.head? = some c → c.isLower = false) :
+    matchElem (symChars z ++ r) = some (z, r) :=
+  matchElem_sym z h1 h2 r hr
+
+/-- Whatever the element lexer accepts is one of the 118 symbols, read completely, with its own atomic number:
+    no other capitalised token is ever read as an element. -/
+theorem elem_table_sound (s : List Char) (z : Nat) (r : List Char) (h : matchElem s = some (z, r)) :
+    1 ≤ z ∧ z ≤ 118 ∧ s = symChars z ++ r :=
+  matchElem_sound s z r h
+
+/-- Two adjacent symbols are read as exactly those two elements (the Co / CO class), for all 118 × 118 ordered pairs. -/
+theorem adjacent_symbols (z1 z2 : Nat) (h1 : 1 ≤ z1 ∧ z1 ≤ 118) (h2 : 1 ≤ z2 ∧ z2 ≤ 118) :
+    parseStoich (symChars z1 ++ symChars z2) = .ok (mergeComp [(z1, 1), (z2, 1)]) := by
+  have hwf : (Terms.cons (.elem z1 .omitted none []) (.cons (.elem z2 .omitted none []) .nil)).wf = true := by
+    simp [Terms.wf, Term.wf, Cnt.wf, Term.isCage, Terms.isNil, h1.1, h1.2, h2.1, h2.2]
+  have := parseStoich_render _ hwf rfl
+  simpa [Terms.render, Term.render, Cnt.render, stText, Terms.flat, Term.flat, Cnt.val] using this
+
+/-! ### the round trip -/
+
+/-- **Parsing a written formula yields exactly its composition and charge.**
+    For every well-formed formula AST `f` (any nesting depth, any length, all 118 symbols, integer or decimal counts,
+    the three bracket kinds, cages, hydrate parts with leading counts and either separator, states, marks, every default
+    prefix, phase suffixes, charges in all accepted writings) the model of `formula_to_composition` applied to the written
+    text returns a dict `c` that agrees with the denotation of `f`: no duplicate keys, keys = occurring elements plus 0 iff a
+    charge token is written, `c[k] = Σ over the occurrences of k of the product of the enclosing multipliers`, `c[0]` = signed charge. -/
+theorem parse_render (f : Formula) (h : f.WF) :
+    ∃ c, formulaToComposition f.renderStr = .ok c ∧ Agrees f c :=
+  roundtrip_core f h (noSuffixEnd_of_wf f (Formula.wfd f h))
+
+/-- The same, spelled out per key. -/
+theorem parse_render_lookup (f : Formula) (h : f.WF) :
+    ∃ c, formulaToComposition f.renderStr = .ok c ∧ (Comp.keys c).Nodup ∧
+      ∀ k, Comp.get? c k =
+        if k ∈ Comp.keys f.occurrences ∨ (k = 0 ∧ f.charge.isSome = true) then some (f.denote k) else none := by
+  obtain ⟨c, hc, ha⟩ := parse_render f h
+  refine ⟨c, hc, ha.nodup, fun k => ?_⟩
+  by_cases hk : k ∈ Comp.keys c
+  · rw [if_pos ((ha.keys k).mp hk)]; exact ha.value k hk
+  · rw [if_neg (fun h' => hk ((ha.keys k).mpr h'))]; exact ha.absent k hk
+
+/-- The stoichiometric core alone: a rendered term list of any depth parses to its pairs summed per element. -/
+theorem parse_render_stoich (ts : Terms) (h : ts.WF) (hne : ts.isNil = false) :
+    ∃ c, parseStoich ts.render = .ok c ∧ (Comp.keys c).Nodup ∧ ∀ k, total c k = total (ts.occ 1) k :=
+  ⟨mergeComp ts.flat, parseStoich_render ts h hne, nodup_mergeComp _, fun k => by
+    rw [total_mergeComp, Terms.total_flat]⟩
+
+/-- The electron: `e-` is the bare charge −1. -/
+theorem parse_electron : formulaToComposition "e-" = .ok [(0, -1)] := by decide +kernel
+
+/-! ### rejection of ill-formed text -/
+
+/-- **Contradictory or repeated charge marks are rejected.** For EVERY input string: if, after the prefix / suffix
+    stripping the code performs (`coreOf`), the text contains both a `+` and a `-`, or more than one `+`, or more than
+    one `-` (`Fe+3-`, `Fe+-`, `Na++`, `SO4-2-`, …), `formula_to_composition` raises — whatever else the string contains. -/
+theorem reject_contradictory_charge (s : String)
+    (h : ('+' ∈ coreOf s.toList ∧ '-' ∈ coreOf s.toList) ∨ (coreOf s.toList).count '+' > 1 ∨ (coreOf s.toList).count '-' > 1) :
+    ∃ e, formulaToComposition s = .error e :=
+  contradictory_rejected s.toList h
+
+/-- A `+`, `-` or `/` inside the stoichiometry token (the text before the charge token) is never skipped:
+    the part loop raises. -/
+theorem reject_sign_in_stoichiometry (a : List Char) (x : Char) (hx : x ∈ a) (hs : x = '+' ∨ x = '-' ∨ x = '/') :
+    ∃ e, stoichToComp a = .error e :=
+  stoichToComp_reject_sign a x hx hs
+
+/-- Everything the stoichiometry parser accepts is the electron `e` or lies in the token language `Acc`
+    (whitespace, element symbols, digits, '.', state texts, marks, '@', properly nested bracket groups). -/
+theorem accepted_language (s : List Char) (c : Comp) (h : parseStoich s = .ok c) : s = ['e'] ∨ Acc s :=
+  parseStoich_sound s c h
+
+/- FULL STATEMENT (not yet proved at this level):
+   theorem reject_unbalanced (s : String) (h : balanced s.toList = false) : ∃ e, formulaToComposition s = .error e
+   Proved below for every hydrate part handed to the grammar (`parseStoich` is called on each part of the split
+   stoichiometry token; prefixes, suffixes and the charge token contain no brackets unless the charge number is not an
+   integer, which `reject`s as well). Missing: the bookkeeping that a bracket imbalance of the whole string shows up as an
+   imbalance of one part (string plumbing through stripPrefixes / stripSuffixes / splitAtChar / splitDD). -/
+/-- **Unbalanced brackets are rejected** by the grammar: for EVERY text whose brackets `( ) [ ] { }` are not balanced and
+    properly nested, the stoichiometry parser raises ParseException (never a silently mis-read composition). -/
+theorem reject_unbalanced_partial (s : List Char) (h : balanced s = false) : parseStoich s = .error .parse := by
+  apply parseStoich_reject s
+  · intro e; subst e; revert h; decide
+  · intro hacc; rw [hacc.balanced_true] at h; exact absurd h (by decide)
+
+/- FULL STATEMENT (not yet proved at this level):
+   theorem reject_bad_capitalised_token (s : String) (h : capTokensOK s.toList = false) : ∃ e, formulaToComposition s = .error e
+   Proved below for every hydrate part handed to the grammar; the same string plumbing as above is missing
+   (a capitalised token never spans a cut point of the outer layers, because every cut is next to a non-letter). -/
+/-- **A capitalised token that is not an element symbol is rejected** by the grammar: for EVERY text in which some maximal
+    token `[A-Z][a-z]*` is not one of the 118 symbols (`Xx`, `Ab`, `Hx`, `Cos`, …), the stoichiometry parser raises. -/
+theorem reject_bad_capitalised_token_partial (s : List Char) (h : capTokensOK s = false) : parseStoich s = .error .parse := by
+  apply parseStoich_reject s
+  · intro e; subst e; revert h; decide
+  · intro hacc; rw [hacc.capTokensOK_true] at h; exact absurd h (by decide)
+
+example : formulaToComposition "Fe+3-" = .error .charge := by decide +kernel
+example : formulaToComposition "Fe+-" = .error .charge := by decide +kernel
+example : formulaToComposition "Na++" = .error .multiToken := by decide +kernel
+example : '+' ∈ coreOf "Fe+3-(aq)".toList ∧ '-' ∈ coreOf "Fe+3-(aq)".toList := by decide +kernel
+example : capTokensOK "NaXx2".toList = false ∧ capTokensOK "Hx".toList = false ∧ capTokensOK "Co(CO)4".toList = true := by decide +kernel
+example : formulaToComposition "Hx" = .error .parse := by decide +kernel
+example : balanced "[Fe(H2O]6)".toList = false ∧ balanced "(H2O".toList = false ∧ balanced "[Fe(H2O)6]".toList = true := by decide +kernel
+example : formulaToComposition "[Fe(H2O)6+3" = .error .parse := by decide +kernel
+example : formulaToComposition "Fe/3+" = .error .slash := by decide +kernel
+
+/-! ### non-vacuity: the well-known formulas are renderings of well-formed ASTs and parse -/
+
+private def d (s : String) : List Char := s.toList
+private def el (z : Nat) (n : Cnt := .omitted) : Term := .elem z n none []
+private def terms : List Term → Terms := Terms.ofList
+
+/-- `[Fe(H2O)6]+3` -/
+def exFeAq : Formula :=
+  { prefixes := [], sep := .dots,
+    parts := [⟨none, terms [.group .square (terms [el 26, .group .paren (terms [el 1 (.int (d "2")), el 8]) (.int (d "6")) none []]) .omitted none []]⟩],
+    charge := some ⟨false, some (d "3")⟩, suffix := none }
+
+/-- `Na2CO3..7H2O` -/
+def exSoda : Formula :=
+  { prefixes := [], sep := .dots,
+    parts := [⟨none, terms [el 11 (.int (d "2")), el 6, el 8 (.int (d "3"))]⟩, ⟨some (d "7"), terms [el 1 (.int (d "2")), el 8]⟩],
+    charge := none, suffix := none }
+
+/-- `Ca2.832Fe0.6285Mg5.395(CO3)6` -/
+def exAnkerite : Formula :=
+  { prefixes := [], sep := .dots,
+    parts := [⟨none, terms [el 20 (.dec (d "2") (d "832")), el 26 (.dec (d "0") (d "6285")), el 12 (.dec (d "5") (d "395")),
+      .group .paren (terms [el 6, el 8 (.int (d "3"))]) (.int (d "6")) none []]⟩],
+    charge := none, suffix := none }
+
+/-- `.NHO-(aq)` (radical prefix, charge, phase suffix) -/
+def exRadical : Formula :=
+  { prefixes := [d "."], sep := .dots, parts := [⟨none, terms [el 7, el 1, el 8]⟩],
+    charge := some ⟨true, none⟩, suffix := some (d "(aq)") }
+
+example : exFeAq.renderStr = "[Fe(H2O)6]+3" ∧ exFeAq.WF := by decide +kernel
+example : formulaToComposition "[Fe(H2O)6]+3" = .ok [(26, 1), (1, 12), (8, 6), (0, 3)] := by decide +kernel
+example : exSoda.renderStr = "Na2CO3..7H2O" ∧ exSoda.WF := by decide +kernel
+example : formulaToComposition "Na2CO3..7H2O" = .ok [(11, 2), (6, 1), (8, 10), (1, 14)] := by decide +kernel
+example : exAnkerite.renderStr = "Ca2.832Fe0.6285Mg5.395(CO3)6" ∧ exAnkerite.WF := by decide +kernel
+example : formulaToComposition "Ca2.832Fe0.6285Mg5.395(CO3)6"
+    = .ok [(20, 2832 / 1000), (26, 6285 / 10000), (12, 5395 / 1000), (6, 6), (8, 18)] := by decide +kernel
+example : exRadical.renderStr = ".NHO-(aq)" ∧ exRadical.WF := by decide +kernel
+example : formulaToComposition ".NHO-(aq)" = .ok [(7, 1), (1, 1), (8, 1), (0, -1)] := by decide +kernel
+example : exSoda.denote 8 = 10 ∧ exSoda.denote 1 = 14 ∧ exFeAq.denote 0 = 3 ∧ exFeAq.denote 1 = 12 := by decide +kernel
 
 end ChemModel.C01
